@@ -19,7 +19,7 @@ func init() {
 		Assumptions: []string{"ref.Descriptor is written from the doc comments of plenccodec.Descriptor and C14's statement"},
 		Work:        c14Work,
 		Post: func(a *mc.Agg) []string {
-			return needDims(a, "json:n", "json:n,omitempty", "json:,omitempty", "json:-", "universe", "named")
+			return needDims(a, "json:n", "json:n,omitempty", "json:,omitempty", "json:-", "universe", "named", "skipped")
 		},
 	})
 }
@@ -62,6 +62,9 @@ func c14Work(c *mc.Ctx) {
 		pre := fmt.Sprintf("%s|%s|", cfg, t)
 		c.Guard(pre, func() {
 			p := NewPlenc(cfg)
+			if rt == nil {
+				rt = t.Reflect()
+			}
 			codec, err := p.CodecForType(rt)
 			c.Ops(2)
 			if err != nil {
@@ -100,8 +103,36 @@ func c14Work(c *mc.Ctx) {
 			}
 		}
 	}
-	// hand-written named types
+	// skipped fields in every position: 4 fields of different types with json names and
+	// non-monotonic indexes, every subset of them tagged "-" (the descriptor must list exactly
+	// the others, each with its own name, index and type)
 	L := ref.Leaf
+	skipBase := []ref.F{
+		{Name: "Alpha", Index: 7, T: L(ref.KInt)},
+		{Name: "Beta", Index: 2, JSON: "bee,omitempty", T: L(ref.KString)},
+		{Name: "Gamma", Index: 300, T: ref.Ptr(L(ref.KFloat64))},
+		{Name: "Delta", Index: 1, JSON: "dee", T: ref.Slice(L(ref.KString))},
+	}
+	for mask := 1; mask < 16; mask++ {
+		fs := append([]ref.F(nil), skipBase...)
+		for i := range fs {
+			if mask&(1<<i) != 0 {
+				fs[i].Skip = true
+			}
+		}
+		t2 := ref.Struct(fs...)
+		one("skipped", ref.Cfg{}, t2, t2.Reflect())
+		// and the same struct as a nested field, slice element and map value
+		one("skipped", ref.Cfg{}, ref.Struct(ref.Fld(1, t2), ref.Fld(2, ref.Slice(t2)), ref.Fld(3, ref.Map(L(ref.KString), t2))), nil)
+	}
+	// unexported and blank fields between encoded ones (hand-written: reflect cannot build them)
+	unexp := &ref.T{K: ref.KStruct, GoName: "Unexp", Named: "gen.Unexp", Fields: []ref.F{
+		{Name: "A", Index: 1, T: L(ref.KInt)}, {Name: "b", NoTag: true, T: L(ref.KString)}, {Name: "C", Skip: true, T: L(ref.KString)},
+		{Name: "d", NoTag: true, T: ref.Ptr(L(ref.KInt))}, {Name: "_", NoTag: true, T: L(ref.KInt)}, {Name: "E", Index: 2, T: L(ref.KInt)},
+		{Name: "_x", Index: 3, T: L(ref.KInt)}, {Name: "F", Skip: true, T: L(ref.KBytes)}}}
+	ref.RegisterNamed("gen.Unexp", reflect.TypeOf(gen.Unexp{}))
+	one("skipped", ref.Cfg{}, unexp, reflect.TypeOf(gen.Unexp{}))
+	// hand-written named types
 	named := &ref.T{K: ref.KStruct, GoName: "Named", Named: "gen.Named", Fields: []ref.F{
 		{Name: "I", Index: 1, T: L(ref.KInt)}, {Name: "S", Index: 2, T: L(ref.KString)}, {Name: "B", Index: 3, T: &ref.T{K: ref.KSlice, Elem: L(ref.KUint8)}},
 		{Name: "F", Index: 4, T: L(ref.KFloat64)}, {Name: "O", Index: 5, T: L(ref.KBool)}, {Name: "U", Index: 6, T: &ref.T{K: ref.KSlice, Elem: L(ref.KUint8)}},
